@@ -40,6 +40,11 @@ def render(n, env):
         b = env.get(n.d.get("did")) if env is not None else None
         if b is not None:
             return render(b[0], b[1])
+        if n.cv is not None and n.d.get("dk") not in ("Var", "Parm"):
+            return str(n.cv)                  # an enumerator: its value
+        al = _alias_of(n)
+        if al is not None:
+            return render(al, env)
         return n.d["name"]
     if k == "MemberExpr":
         base = render(n.kids[0], env) if n.kids else "?"
@@ -49,7 +54,9 @@ def render(n, env):
             return "%s->%s" % (base, n.d["field"])
         return "%s.%s" % (base, n.d["field"])
     if k == "ArraySubscriptExpr":
-        return "%s[%s]" % (render(n.kids[0], env), render(n.kids[1], env))
+        ix = n.kids[1].strip(casts=True)
+        return "%s[%s]" % (render(n.kids[0], env), str(ix.cv) if ix.cv is not None and ix.k != "DeclRefExpr" or
+                           (ix.k == "DeclRefExpr" and ix.cv is not None and ix.d.get("dk") not in ("Var", "Parm")) else render(n.kids[1], env))
     if k == "UnaryOperator":
         inner = render(n.kids[0], env)
         if n.d.get("postfix"):
@@ -64,6 +71,31 @@ def render(n, env):
     if k == "CallExpr":
         return "%s(%s)" % (n.callee or "?", ", ".join(render(a, env) for a in n.args))
     return n.text()
+
+
+def _alias_of(ref):
+    """a pointer local that is assigned exactly once, from &lvalue or a plain member path, and never modified (struct states*
+    first = &m->f[0]): the expression it stands for, else None"""
+    if ref.d.get("dk") != "Var" or ref.d.get("g") or not (ref.ty or "").endswith("*"):
+        return None
+    F = getattr(ref, "fn", None)
+    if F is None:
+        return None
+    cache = F.__dict__.setdefault("_alias_cache", {})
+    key = ref.d["did"]
+    if key not in cache:
+        from .util import local_defs
+        defs = local_defs(F, ref.d["did"])
+        val = None
+        real = [d for d, nd in defs if not (d is not None and (d.strip(casts=True).cv == 0 or "NULL" in "".join(d.strip(casts=True).mac or [])))]
+        if len(real) == 1 and real[0] is not None:
+            d0 = real[0].strip(casts=True)
+            ok = (d0.k == "UnaryOperator" and d0.d["op"] == "&") or d0.k in ("MemberExpr", "ArraySubscriptExpr")
+            if ok and not any(x.k == "CallExpr" for x in d0.walk()) and not any(
+                    x.k == "DeclRefExpr" and x.d.get("did") == ref.d["did"] for x in d0.walk()):
+                val = d0
+        cache[key] = val
+    return cache[key]
 
 
 def resolve(n, env):
